@@ -274,15 +274,9 @@ func propC14(w *World, r *Report) {
 		okWhole := strings.HasPrefix(fw.term, "slice(lepton3.NewRawFrame(), 0, len(") || fw.term == "lepton3.NewRawFrame()" || strings.HasPrefix(fw.term, "slice(github.com/TheCacophonyProject/lepton3.NewRawFrame(), 0, len(")
 		r.Check(okWhole, "M6", "leptond writes the whole raw frame", w.InstrPos(fw.call), fw.term)
 		for _, mw := range markerWrites {
-			// the marker is written outside the frame loop function, after that function returned
-			dom := false
-			for _, b := range mw.fn.Blocks {
-				for _, in := range b.Instrs {
-					if c, ok := in.(*ssa.Call); ok && c.Call.StaticCallee() == fw.fn && b.Dominates(mw.call.Block()) {
-						dom = true
-					}
-				}
-			}
+			// the marker is written outside the frame loop function, after that function returned (directly, or in a
+			// helper every call of which comes after the frame loop returned)
+			dom := afterCallTo(w, mw.fn, mw.call, fw.fn, 0)
 			r.Check(mw.fn != fw.fn && dom, "M6", "the marker is written only between frame loops (after the frame loop function returned)", w.InstrPos(mw.call), mw.fn.Name()+" / "+fw.fn.Name())
 		}
 	}
@@ -866,4 +860,38 @@ func successEdge(b *ssa.BasicBlock) *ssa.BasicBlock {
 		return b.Succs[0]
 	}
 	return nil
+}
+
+// afterCallTo: instruction `at` of function fn executes only after a call to `target` returned: a call to target
+// dominates it in fn, or fn is an unexported helper all of whose call sites satisfy the same condition (two levels).
+func afterCallTo(w *World, fn *ssa.Function, at ssa.Instruction, target *ssa.Function, depth int) bool {
+	for _, b := range fn.Blocks {
+		for _, in := range b.Instrs {
+			if c, ok := in.(*ssa.Call); ok && c.Call.StaticCallee() == target {
+				if b == at.Block() && instrIndex(c) < instrIndex(at) || b != at.Block() && b.Dominates(at.Block()) {
+					return true
+				}
+			}
+		}
+	}
+	if depth >= 2 {
+		return false
+	}
+	n := 0
+	for _, caller := range w.callersOf(fn) {
+		for _, b := range caller.Blocks {
+			for _, in := range b.Instrs {
+				if c, ok := in.(ssa.CallInstruction); ok && c.Common().StaticCallee() == fn {
+					n++
+					if _, isGo := in.(*ssa.Go); isGo {
+						return false
+					}
+					if !afterCallTo(w, caller, in, target, depth+1) {
+						return false
+					}
+				}
+			}
+		}
+	}
+	return n > 0
 }
